@@ -78,6 +78,8 @@ def directed(rng):
         e = bool(v % 2)
         add('swap-%d' % v, {}, [op('o1'), op('o2'), D, peer(R(2, e)), D, peer(R(1)), D])
         add('array-%d' % v, {}, [op('o1'), op('o2', 'batch', [False, True, False]), D, peer(R(3, e), R(1), R(2)), D])
+        # the members of a batch are answered one record at a time, in every order: each completes with its own reply, nothing else ends
+        add('batch-split-replies-%d' % v, {}, [op('o1', 'batch', [False, True, False, False]), D, peer(R([1, 2, 3][v], e)), D, peer(R([3, 1, 2][v])), D, peer(R([2, 3, 1][v], not e)), D])
         add('dup-%d' % v, {}, [op('o1'), op('o2'), D, peer(R(1), R(1, True)), peer(R(1)), D, peer(R(2), R(9)), D])
         add('bad-live-%d' % v, {}, [op('o1'), op('o2', 'batch', [False, True, False]), D, peer(B(1 + v), R(9)), D, peer(R(1), R(2), R(3)), D])
         add('bad-batch-%d' % v, {}, [op('o1', 'batch', [False, True, False, False]), D, peer(R(3), R(9), B(2), R(1)), D])
